@@ -19,7 +19,8 @@ PID = "C14"
 PROPS = [("theories/RangeTask/Props.v", "RangeTask.Props")]
 AREAS = ["theories/RangeTask"]
 NORMALISATIONS = [
-    "N1 ScanLock: mocktikv ignores StartKey/EndKey/Limit and returns no lock_type; the wrapping client keeps keys >= start, < end, in key order, first `limit`, and fills lock_type from the MVCC debugger (TiKV's contract)",
+    "N1 ScanLock: mocktikv ignores StartKey/EndKey/Limit; the wrapping client keeps keys >= start, < end, in key order, first `limit` (TiKV's contract)",
+    "N1T ScanLock lock_type: only when VERIF_C14_N1T=auto|on (default off; see mock_probe.scan_lock_returns_lock_type / n1t_active of this run): fill lock_type from the MVCC debugger. Until fix F41 mocktikv's ScanLock returned no lock_type and the harness filled it unconditionally, which masked that BatchResolveLocks then treats a stale-primary pessimistic lock as a prewrite lock and rolls back a committed transaction's secondary",
     "N2 ResolveLock{TxnInfos}: only when VERIF_C14_N2=auto|on (default off since the mock honours TxnInfos, fix 448a517; see mock_probe.n2_mode / n2_active of this run): the wrapping client issues one single-transaction ResolveLock per TxnInfo with the same region context. With the default, a mock that ignores TxnInfos again is reported by the lock audit (and by the probe case) as a violation",
     "N3 DeleteRange{NotifyOnly}: mocktikv deletes anyway; the wrapping client answers notify-only requests itself after an epoch check",
     "N3u (unistore tier): unistore's DeleteRange panics on an unbounded end key; the wrapping client forwards ff ff ff ff; delete-range audit by snapshot reads (unistore's MvccGetByKey panics on a removed key)",
